@@ -10,9 +10,9 @@ ENGINE_TB = [
 PROPS = {}
 
 
-def prop(pid, modules, level, technique, text, note, trusted=(), explanation="", design_ref="", bounded=None, lemmas=False):
+def prop(pid, modules, level, technique, text, note, trusted=(), explanation="", design_ref="", bounded=None, lemmas=False, lean=None):
     PROPS[pid] = dict(modules=modules, level=level, technique=technique, text=text, note=note,
-                      trusted_base=ENGINE_TB + list(trusted), explanation=explanation, design_ref=design_ref, bounded=bounded, lemmas=lemmas)
+                      trusted_base=ENGINE_TB + list(trusted), explanation=explanation, design_ref=design_ref, bounded=bounded, lemmas=lemmas, lean=lean)
     register(pid, *modules)
 
 
@@ -75,6 +75,23 @@ prop(
     explanation="links proved by VCs per shape; YAML end to end bounded",
     design_ref="5/C05",
     bounded="bounded.c05_yaml",
+)
+
+
+prop(
+    "C15",
+    ["contracts.c15_factory"],
+    "proof",
+    "contract-based deductive verification of FactoryPool: hatchery / mortuary as finite sets of objects (membership arrays), sums over them as an uninterpreted set-sum function whose axioms are theorems proved in Lean 4 against Mathlib on every run; _release_child, _reap_children, _grow, _shrink (loop invariants over an arbitrary enumeration order), the aggregation properties, run (iteration contract) and __init__ are proved for every set of children, every demand history and every factory",
+    "every clause of the statement is a postcondition: grow covers the target and would not without the child spawned last; shrink releases only while the rest still covers the target and keeps no child that could still be released; released children have demand 0, move hatchery -> mortuary and nothing else is touched (sets stay disjoint); children without demand are released; only the factory adds children; supply is the sum over all children, utilisation / allocation the mean over those with supply (1.0 if none); run sleeps one interval then adjusts once",
+    "trusted: pyvc's Python semantics; Python float arithmetic treated as real arithmetic (sum order / rounding not modelled); sets hold each object once and iterate every member exactly once in arbitrary order; sorted() as arbitrary order; the correspondence between the SMT axioms of ssum/scard and the Lean theorems is by name; garbage collection of mortuary (WeakSet) members is not modelled",
+    trusted=["idealisation: Python float sums are real-number sums (associativity, no rounding); sum() over any iteration order of a set is the set sum (Lean: SetSum.sum_enumeration)",
+             "assumed: the axioms of the uninterpreted functions ssum / scard are exactly the theorems of /verif/lean/SetSum.lean (checked by lean against Mathlib in this run; the correspondence axiom <-> theorem is by name and reading)",
+             "hypothesis: children are well-behaved pools (non-negative finite supply/demand/utilisation/allocation); while the pool sleeps, demands stay non-negative and released children keep demand 0; the factory returns a pool that is not already a child",
+             "not modelled: weak references - a released child disappearing from the mortuary by garbage collection (it has demand 0; only the supply aggregate could change)"],
+    explanation="all clauses proved by VCs over set sums; set-sum axioms are Lean/Mathlib theorems",
+    design_ref="5/C15",
+    lean="lean/SetSum.lean",
 )
 
 NOT_APPLICABLE = {pid: NOT_BUILT for pid in ["C%02d" % i for i in range(1, 20)]}
@@ -193,7 +210,7 @@ prop(
 
 prop(
     "C09",
-    ["contracts.c08_controllers", "contracts.c09_periodic"],
+    ["contracts.c08_controllers", "contracts.c09_periodic", "contracts.c15_factory"],
     "proof",
     "contract-based deductive verification: iteration contracts on the `while True` loops of the run coroutines (one step, then one sleep of the interval), callee contracts of C08 for the steps, virtual clock through the assumed contract of trio.sleep",
     "for every shipped periodic service the loop body is proved to perform exactly one step (regulate with the configured interval / one rule / one conditional flush / one adjustment) and exactly one trio.sleep(interval) per iteration, for all states and intervals; run never returns and raises nothing but trio.Cancelled; the bound on demand change over a time span is an arithmetic lemma; " + CONC_NOTE,
